@@ -15,13 +15,28 @@
 #![allow(unused_imports, dead_code, unused_variables, unused_mut)]
 #![feature(allocator_api)]
 use vstd::prelude::*;
+use std::mem::size_of;
 
 verus! {
 
+global size_of usize == 8;
+pub mod words {
+    use vstd::prelude::*;
+    /// `n * size_of::<usize>()` with the word size known to be 8 is the linear term `n * 8`
+    pub broadcast proof fn lemma_mul_word(a: int, b: int)
+        requires b == 8,
+        ensures #[trigger] (a * b) == a * 8,
+    {}
+}
+broadcast use words::lemma_mul_word;
+
+
+// @@INCLUDE lazyint@@
 pub struct P<W, R, T> { pub w: Ghost<W>, pub r: Ghost<R>, pub t: Ghost<T> }
 /// the representations a copying update can produce
 pub enum XSequence<W, R, T> { Empty, Array(Vec<Val<W, R, T>>), Other(P<W, R, T>) }
-pub enum XValue<W, R, T> { Native(Box<XSequence<W, R, T>>), Bool(bool) }
+pub enum XValue<W, R, T> { Native(Box<XSequence<W, R, T>>), Bool(bool), Int(LazyBigint) }
+pub mod xvalue { pub use super::XValue; }
 /// Rc<ManagedXValue>
 pub struct Val<W, R, T> { pub value: XValue<W, R, T> }
 impl<W, R, T> Clone for Val<W, R, T> { #[verifier::external_body] fn clone(&self) -> (r: Self) ensures r == *self { unimplemented!() } }
@@ -33,7 +48,30 @@ pub type XResult<X> = RuntimeResult<Result<X, ErrV>>;
 pub enum TailedEvalResult<W, R, T> { Value(EvaluatedValue<W, R, T>), TailCall(Vec<EvaluatedValue<W, R, T>>) }
 pub mod xexpr { pub use super::TailedEvalResult; }
 pub struct Rt;
-impl Rt { #[verifier::external_body] pub fn clone(&self) -> (r: Rt) { unimplemented!() } }
+impl Rt {
+    #[verifier::external_body] pub fn clone(&self) -> (r: Rt) { unimplemented!() }
+    /// pre-flight allocation check (C09)
+    #[verifier::external_body] pub fn can_allocate(&self, new_size: usize) -> (r: RuntimeResult<()>) { unimplemented!() }
+}
+pub struct ManagedXError;
+impl ManagedXError {
+    #[verifier::external_body]
+    pub fn new(error: &str, rt: Rt) -> (r: RuntimeResult<ErrV>) { unimplemented!() }
+}
+/// builtin/core.rs `xerr`
+#[verifier::external_body]
+pub fn xerr<W, R, T>(err: ErrV) -> (r: RuntimeResult<TailedEvalResult<W, R, T>>)
+    ensures r == Ok::<TailedEvalResult<W, R, T>, RuntimeViolation>(TailedEvalResult::Value(Err(err))),
+{ unimplemented!() }
+#[verifier::external_body]
+pub fn vx_panic<X>() -> (r: X)
+    requires false,
+{ unimplemented!() }
+macro_rules! panic { ($($t:tt)*) => { vx_panic() } }
+/// the position the index value `i` denotes in a list of length `l` (V-idx: value_to_idx)
+pub open spec fn norm_idx(i: int, l: int) -> Option<int> {
+    if 0 <= i < l { Some(i) } else if -l <= i < 0 { Some(i + l) } else { None }
+}
 pub struct Ns;
 pub struct ManagedXValue;
 impl ManagedXValue {
@@ -57,6 +95,17 @@ impl<W, R, T> XSeq<W, R, T> {
     pub open spec fn elems(&self) -> Seq<Val<W, R, T>> { self.e@ }
     #[verifier::external_body]
     pub fn iter(&self, ns: &Ns, rt: Rt) -> (r: ElemIter<W, R, T>) ensures r.rest() == self.elems() { unimplemented!() }
+    /// XSequence::len of a finite sequence
+    #[verifier::external_body]
+    pub fn len(&self) -> (r: Option<usize>) ensures r == Some(self.elems().len() as usize), self.elems().len() * 8 <= isize::MAX /* the elements are held as words in memory */ { unimplemented!() }
+    /// XSequence::value_to_idx by the contract V-idx proves
+    #[verifier::external_body]
+    pub fn value_to_idx(&self, i: &LazyBigint, rt: Rt) -> (r: XResult<usize>)
+        ensures r matches Ok(x) ==> match norm_idx(i.val(), self.elems().len() as int) {
+            Some(k) => x == Ok::<usize, ErrV>(k as usize),
+            None => x is Err,
+        },
+    { unimplemented!() }
     /// XSequence::get at a valid index
     #[verifier::external_body]
     pub fn get(&self, idx: usize, ns: &Ns, rt: Rt) -> (r: XResult<Val<W, R, T>>)
